@@ -172,4 +172,28 @@ theorem countsOf_diagonal (cols : List Col) (hs : ∀ c ∈ cols, c.1 = c.2 ∨ 
     memo_apply _ _ _ (by omega : (3:Nat) < 4) (by omega : (2:Nat) < 4)]
   refine ⟨?_, ?_, ?_, ?_, ?_, ?_, ?_, ?_, ?_, ?_, ?_, ?_⟩ <;> exact ofCounts_offdiag cols hs _ _ (by omega)
 
+/-! ### audit additions: helpers for `countsOf_swap` -/
+
+theorem zip_swap_int : ∀ (a b : List Int), b.zip a = (a.zip b).map Prod.swap
+  | [], b => by cases b <;> simp
+  | _ :: _, [] => by simp
+  | x :: a, y :: b => by simp [zip_swap_int a b]
+
+/-- the tabulated matrix is 0 outside the 4×4 box -/
+theorem memo_out (m : M4) (i j : Nat) (h : 4 ≤ i ∨ 4 ≤ j) : memo m i j = 0 := by
+  have hl : ∀ l : List Rat, l.length ≤ 4 → 4 ≤ j → l.getD j 0 = 0 := by
+    intro l hl hj
+    rw [List.getD_eq_getElem?_getD, List.getElem?_eq_none (by omega)]; rfl
+  unfold memo
+  show (((List.range 4).map fun i => (List.range 4).map fun j => m i j).getD i []).getD j 0 = 0
+  by_cases hi : i < 4
+  · have hj : 4 ≤ j := by omega
+    apply hl _ _ hj
+    rw [List.getD_eq_getElem?_getD, List.getElem?_map, List.getElem?_range hi]
+    simp
+  · have : ((List.range 4).map fun i => (List.range 4).map fun j => m i j).getD i [] = [] := by
+      rw [List.getD_eq_getElem?_getD, List.getElem?_eq_none (by simp; omega)]
+      rfl
+    rw [this]; rfl
+
 end CogentModel.Distance
